@@ -440,6 +440,18 @@ def classify(op, impl):
     return f"{tag}:{impl.split(' ')[0][:8]}"
 
 
+GROUPS = {"len-random": "lengths", "len-mirror": "lengths", "trunc": "trunc", "perturb": "perturb", "perturb2": "perturb",
+          "bitflip": "perturb", "random": "perturb", "v6ext": "options", "ipopt": "options", "tcpopt": "options"}
+
+
+def group_of(op):
+    w = op.split(" ")
+    tag = w[3].lstrip("#").split(":")[0] if len(w) > 3 else w[0]
+    if tag.startswith("unreach") or tag.startswith("icmp-error"):
+        return "icmp-error"
+    return GROUPS.get(tag, "mirror")
+
+
 def sig_of(kind, detail, case):
     w = case[-1].split(" ")
     top = w[1].split("/")[0].split(":")[0] if len(w) > 1 else ""
@@ -508,11 +520,14 @@ def run(chk):
         chk.violation(f"harness could not build {len(gen_failures)} generated request(s): {s} -> {r}"[:600],
                       ["machinery-error gen", s, str(r)], nofail=True)
     stats = collections.Counter()
+    # one correspondence run per family of replies, so that every family gets its own (shrunk, de-duplicated) reports
+    groups = collections.OrderedDict()
+    for op in ops:
+        groups.setdefault(group_of(op), []).append(op)
     CH = 60000
-    verdicts = collections.Counter()
-    for i in range(0, len(ops), CH):
-        part = ops[i:i + CH]
-        stats += corr.correspond(chk, AREA, exe, part, case_start=CASE_START, classify=classify, sig_of=sig_of)
+    for g, gops in groups.items():
+        for i in range(0, len(gops), CH):
+            stats += corr.correspond(chk, AREA, exe, gops[i:i + CH], case_start=CASE_START, classify=classify, sig_of=sig_of)
     # distribution of what the specification demanded (evidence only)
     sample = ops if chk.tier == "quick" else ops[:200000]
     impl, _ = core.run_harness_lines(exe, [], sample, CASE_START)
